@@ -17,7 +17,8 @@ META = {
                  'branch by branch over an abstract byte string, under an ideal-AEAD assumption; TLC enumerates value '
                  'length x corruption case (region x kind) x reader key relation, every case is concretised for EVERY '
                  'byte position of its region and executed on the real codec; plus a behavioural model of the pipeline '
-                 '(publish in batches -> seal -> append -> raw log -> subscribe, pause/resume, restart, change of the '
+                 '(publish in batches -> seal -> append -> raw log -> subscribe, pause/resume, metadata snapshots, restart '
+                 'from the snapshot or by replaying the Raft log, a running server installing a snapshot, change of the '
                  'master key variable, tampering on disk) whose TLC-simulated and scenario behaviours are executed on a '
                  'running server (one node, and two nodes with both streams replicated: follower-served subscribers, leader '
                  'change) with an encrypted and a plain stream; every recorded outcome is judged by TLC '
@@ -43,7 +44,9 @@ META = {
                   'byte of the stored form is covered by the key-wrap or the GCM check; no length crashes or yields '
                   'data), every single-byte corruption of the stored form for the enumerated value lengths on the real '
                   'codec, master key mismatch, where the key comes from (read from the environment when a partition '
-                  'object is built: creation, resume, restart), and the data flow of the pipeline on a live one-node '
+                  'object is built: creation, resume, restart - from the newest Raft snapshot when one was taken, else by replay - '
+                  'and installation of a snapshot on a running server; the encryption setting in the live metadata and in the '
+                  'newest snapshot file are projected after every step), and the data flow of the pipeline on a live one-node '
                   'server through all three Seal sites of messageProcessingLoop (site coverage is measured through a '
                   'recording wrapper around the real handler).  "Never contains the value" is claimed for values of '
                   '>= 16 bytes; for 1..15 bytes: the stored form is not the value, and the value does not sit at a fixed '
@@ -182,6 +185,10 @@ def scenarios(seed):
         pub('enc', [V(1, 'long'), V(2, 'short')], 'b2b'), pub('plain', [V(3, 'long')], 'api'), INST,
         pub('enc', [V(4, 'long'), V(5, 'long'), V(6, 'empty')], 'b2b', [2]), sub('enc'), sub('plain'), pub('plain', [V(7, 'long')], 'api'),
         {'a': 'SetEnv', 'k': 'k2'}, INST, sub('enc'), pub('enc', [V(8, 'long')], 'gap'), sub('enc', 4), sub('enc', 4, True), sub('plain')]))
+    R.append(({'wrap': True}, [       # a snapshot installed while a stream is paused (its partition object is rebuilt paused)
+        pub('enc', [V(1, 'long'), V(2, 'short')], 'b2b'), {'a': 'Pause', 's': 'enc'}, INST, {'a': 'Resume', 's': 'enc'},
+        pub('enc', [V(3, 'long')], 'api'), sub('enc'), {'a': 'Pause', 's': 'plain'}, {'a': 'SetEnv', 'k': 'k2'}, INST,
+        pub('enc', [V(4, 'long')], 'api'), sub('enc'), sub('enc', 2), {'a': 'Resume', 's': 'plain'}, pub('plain', [V(5, 'long')], 'api'), sub('plain')]))
     for n, (c, steps) in enumerate(R):
         out.append({'id': 9400 + n, 'cfg': dict(SERVER_CFGS[0], seed=seed, **c), 'steps': steps})
     out.append({'id': 9410, 'cfg': dict(SERVER_CFGS[1], seed=seed, wrap=True), 'steps': R[0][1]})     # encrypted by the server configuration
